@@ -9,6 +9,33 @@ from ._rectangle import line_segment_to_rectangle
 @numba.njit(numba.types.Tuple(
     (numba.float64, numba.float64[:]))(numba.float64[:], numba.float64[:, :]),
     cache=True)
+def _point_to_degenerate_triangle(point, triangle_points):
+    """Closest point of a triangle with collinear or coinciding points.
+
+    The closest point lies on one of the edges. The barycentric formulas of
+    point_to_triangle would divide by zero.
+    """
+    best_distance = MAX_FLOAT
+    closest_point = triangle_points[0]
+    for i in range(3):
+        start = triangle_points[i]
+        segment = triangle_points[(i + 1) % 3] - start
+        segment_length_sq = np.dot(segment, segment)
+        t = 0.0
+        if segment_length_sq > 0.0:
+            t = min(1.0, max(0.0, np.dot(point - start, segment)
+                             / segment_length_sq))
+        candidate = start + t * segment
+        distance = np.linalg.norm(point - candidate)
+        if distance < best_distance:
+            best_distance = distance
+            closest_point = candidate
+    return best_distance, closest_point
+
+
+@numba.njit(numba.types.Tuple(
+    (numba.float64, numba.float64[:]))(numba.float64[:], numba.float64[:, :]),
+    cache=True)
 def point_to_triangle(point, triangle_points):
     """Compute the shortest distance between point and triangle.
 
@@ -34,6 +61,10 @@ def point_to_triangle(point, triangle_points):
     """
     ab = triangle_points[1] - triangle_points[0]
     ac = triangle_points[2] - triangle_points[0]
+
+    normal = np.cross(ab, ac)
+    if np.dot(normal, normal) == 0.0:
+        return _point_to_degenerate_triangle(point, triangle_points)
 
     # Check if point in vertex region outside A
     ap = point - triangle_points[0]
@@ -82,24 +113,7 @@ def point_to_triangle(point, triangle_points):
 
     # Point inside face region
     if va + vb + vc == 0.0:
-        # Degenerate triangle (collinear or coinciding points): the closest
-        # point lies on one of its edges.
-        best_distance = MAX_FLOAT
-        closest_point = triangle_points[0]
-        for i in range(3):
-            start = triangle_points[i]
-            segment = triangle_points[(i + 1) % 3] - start
-            segment_length_sq = np.dot(segment, segment)
-            t = 0.0
-            if segment_length_sq > 0.0:
-                t = min(1.0, max(0.0, np.dot(point - start, segment)
-                                 / segment_length_sq))
-            candidate = start + t * segment
-            distance = np.linalg.norm(point - candidate)
-            if distance < best_distance:
-                best_distance = distance
-                closest_point = candidate
-        return best_distance, closest_point
+        return _point_to_degenerate_triangle(point, triangle_points)
     denom = 1.0 / (va + vb + vc)
     v = vb * denom
     w = vc * denom
